@@ -10,6 +10,6 @@ rc_all = 0
 for i, mod in enumerate(["vfx.shapes", "vfx.shapes2"]):
     if i:
         sys.stdout.write("\n#####MODULE#####\n")
-    argv = ["-c", "mcfg:CONFIG"] + ([] if rewriting else ["--disable-type-rewriting"]) + ["stub", mod]
+    argv = ["-c", "mcfg:fresh()"] + ([] if rewriting else ["--disable-type-rewriting"]) + ["stub", mod]
     rc_all |= cli.main(argv, sys.stdout, sys.stderr)
 sys.exit(rc_all)
